@@ -393,8 +393,15 @@ int64_t __wrap__ZNSt6chrono3_V212system_clock3nowEv()
 //  4,8,15,20 = retry/spin branches (must switch, or a serialised spinner would never let the awaited thread run)
 //  60        = waiter in the FastFlow raw spin lock (must switch)
 //  7,19      = publish steps (count as progress for pollers)
+static thread_local int t_alloc_depth = 0;
 void fix8_verif_point(int site, unsigned long val)
 {
+	// 70/71 bracket the FastFlow allocator: it is a process-wide singleton whose internal queues carry history from
+	// earlier runs in the same worker, so hook points inside it must not be scheduling points (replay in a fresh
+	// process would otherwise see a different decision sequence). The allocator runs atomically.
+	if (site == 70) { ++t_alloc_depth; return; }
+	if (site == 71) { if (t_alloc_depth > 0) --t_alloc_depth; return; }
+	if (t_alloc_depth > 0) return;
 	if (!active()) return;
 	if (point_observer) point_observer(site, val, t_self->id);
 	if (site == 7 || site == 19) progress();
